@@ -31,7 +31,7 @@ class Batch:
     def generate(self, rng, tier, rep):
         cases = []
         for _ in range(self.n[tier]):
-            nl = rng.randint(1, 4)
+            nl = rng.choice([1, 2, 2, 3, 3, 4])
             layers = worldcase.gen_layers(rng, nl, faults=False)
             for L in layers:
                 L['hooks'].setdefault('setUp', ['ok'])
@@ -40,6 +40,10 @@ class Batch:
             for li in [None] + list(range(nl)):
                 for _ in range(rng.choice([0, 1, 2, 3, 5, 6])):
                     tests.append({'layer': li})
+            for li in range(nl):
+                # resumed mode needs at least two non-unit layers that own tests
+                if nl >= 2 and sum(1 for T in tests if T['layer'] == li) < 2:
+                    tests += [{'layer': li}, {'layer': li}, {'layer': li}]
             rng.shuffle(tests)
             if not tests:
                 tests = [{'layer': 0}]
